@@ -10,94 +10,94 @@ for _algo in range(len(M.ALGOS)):
     M.mk_optimizer(_algo, 1, 1, False)
 
 
-def Optimizer_SGD_rt(epoch: int, sched: int, warm: int, conv: bool, lr: float, last_epoch: int,
+def Optimizer_SGD_rt(epoch: int, sched: int, warm: int, conv: bool, f: float, last_epoch: int,
                                 step_count: int) -> str:
     """
     pre: 0 <= sched <= 5 and 0 <= warm <= 2 and (not conv or (sched == 0 and warm == 2))
     post: __return__ == ''
     """
-    return M.first_problem('Optimizer[SGD]', (epoch, sched, warm, conv, lr, last_epoch, step_count))
+    return M.first_problem('Optimizer[SGD]', (epoch, sched, warm, conv, f, last_epoch, step_count))
 
 
-def Optimizer_SGD_twin(epoch: int, sched: int, warm: int, conv: bool, lr: float, last_epoch: int,
+def Optimizer_SGD_twin(epoch: int, sched: int, warm: int, conv: bool, f: float, last_epoch: int,
                                 step_count: int) -> str:
     """
     pre: 0 <= sched <= 5 and 0 <= warm <= 2 and (not conv or (sched == 0 and warm == 2))
     post: __return__ != 'reached'
     """
-    return M.reached('Optimizer[SGD]', (epoch, sched, warm, conv, lr, last_epoch, step_count))
+    return M.reached('Optimizer[SGD]', (epoch, sched, warm, conv, f, last_epoch, step_count))
 
 
-def Optimizer_Adam_rt(epoch: int, sched: int, warm: int, conv: bool, lr: float, last_epoch: int,
+def Optimizer_Adam_rt(epoch: int, sched: int, warm: int, conv: bool, f: float, last_epoch: int,
                                 step_count: int) -> str:
     """
     pre: 0 <= sched <= 5 and 0 <= warm <= 2 and (not conv or (sched == 0 and warm == 2))
     post: __return__ == ''
     """
-    return M.first_problem('Optimizer[Adam]', (epoch, sched, warm, conv, lr, last_epoch, step_count))
+    return M.first_problem('Optimizer[Adam]', (epoch, sched, warm, conv, f, last_epoch, step_count))
 
 
-def Optimizer_Adam_twin(epoch: int, sched: int, warm: int, conv: bool, lr: float, last_epoch: int,
+def Optimizer_Adam_twin(epoch: int, sched: int, warm: int, conv: bool, f: float, last_epoch: int,
                                 step_count: int) -> str:
     """
     pre: 0 <= sched <= 5 and 0 <= warm <= 2 and (not conv or (sched == 0 and warm == 2))
     post: __return__ != 'reached'
     """
-    return M.reached('Optimizer[Adam]', (epoch, sched, warm, conv, lr, last_epoch, step_count))
+    return M.reached('Optimizer[Adam]', (epoch, sched, warm, conv, f, last_epoch, step_count))
 
 
-def Optimizer_Adagrad_rt(epoch: int, sched: int, warm: int, conv: bool, lr: float, last_epoch: int,
+def Optimizer_Adagrad_rt(epoch: int, sched: int, warm: int, conv: bool, f: float, last_epoch: int,
                                 step_count: int) -> str:
     """
     pre: 0 <= sched <= 5 and 0 <= warm <= 2 and (not conv or (sched == 0 and warm == 2))
     post: __return__ == ''
     """
-    return M.first_problem('Optimizer[Adagrad]', (epoch, sched, warm, conv, lr, last_epoch, step_count))
+    return M.first_problem('Optimizer[Adagrad]', (epoch, sched, warm, conv, f, last_epoch, step_count))
 
 
-def Optimizer_Adagrad_twin(epoch: int, sched: int, warm: int, conv: bool, lr: float, last_epoch: int,
+def Optimizer_Adagrad_twin(epoch: int, sched: int, warm: int, conv: bool, f: float, last_epoch: int,
                                 step_count: int) -> str:
     """
     pre: 0 <= sched <= 5 and 0 <= warm <= 2 and (not conv or (sched == 0 and warm == 2))
     post: __return__ != 'reached'
     """
-    return M.reached('Optimizer[Adagrad]', (epoch, sched, warm, conv, lr, last_epoch, step_count))
+    return M.reached('Optimizer[Adagrad]', (epoch, sched, warm, conv, f, last_epoch, step_count))
 
 
-def Optimizer_RMSprop_rt(epoch: int, sched: int, warm: int, conv: bool, lr: float, last_epoch: int,
+def Optimizer_RMSprop_rt(epoch: int, sched: int, warm: int, conv: bool, f: float, last_epoch: int,
                                 step_count: int) -> str:
     """
     pre: 0 <= sched <= 5 and 0 <= warm <= 2 and (not conv or (sched == 0 and warm == 2))
     post: __return__ == ''
     """
-    return M.first_problem('Optimizer[RMSprop]', (epoch, sched, warm, conv, lr, last_epoch, step_count))
+    return M.first_problem('Optimizer[RMSprop]', (epoch, sched, warm, conv, f, last_epoch, step_count))
 
 
-def Optimizer_RMSprop_twin(epoch: int, sched: int, warm: int, conv: bool, lr: float, last_epoch: int,
+def Optimizer_RMSprop_twin(epoch: int, sched: int, warm: int, conv: bool, f: float, last_epoch: int,
                                 step_count: int) -> str:
     """
     pre: 0 <= sched <= 5 and 0 <= warm <= 2 and (not conv or (sched == 0 and warm == 2))
     post: __return__ != 'reached'
     """
-    return M.reached('Optimizer[RMSprop]', (epoch, sched, warm, conv, lr, last_epoch, step_count))
+    return M.reached('Optimizer[RMSprop]', (epoch, sched, warm, conv, f, last_epoch, step_count))
 
 
-def Optimizer_AdamW_rt(epoch: int, sched: int, warm: int, conv: bool, lr: float, last_epoch: int,
+def Optimizer_AdamW_rt(epoch: int, sched: int, warm: int, conv: bool, f: float, last_epoch: int,
                                 step_count: int) -> str:
     """
     pre: 0 <= sched <= 5 and 0 <= warm <= 2 and (not conv or (sched == 0 and warm == 2))
     post: __return__ == ''
     """
-    return M.first_problem('Optimizer[AdamW]', (epoch, sched, warm, conv, lr, last_epoch, step_count))
+    return M.first_problem('Optimizer[AdamW]', (epoch, sched, warm, conv, f, last_epoch, step_count))
 
 
-def Optimizer_AdamW_twin(epoch: int, sched: int, warm: int, conv: bool, lr: float, last_epoch: int,
+def Optimizer_AdamW_twin(epoch: int, sched: int, warm: int, conv: bool, f: float, last_epoch: int,
                                 step_count: int) -> str:
     """
     pre: 0 <= sched <= 5 and 0 <= warm <= 2 and (not conv or (sched == 0 and warm == 2))
     post: __return__ != 'reached'
     """
-    return M.reached('Optimizer[AdamW]', (epoch, sched, warm, conv, lr, last_epoch, step_count))
+    return M.reached('Optimizer[AdamW]', (epoch, sched, warm, conv, f, last_epoch, step_count))
 
 
 # ------------------------------------------------------------------------------ tensor / parameter codec
